@@ -95,6 +95,11 @@ func (c *Change) PatchText() string {
 		sb.WriteString(string(l.Prefix) + patchRender(l.Text) + "\n")
 	}
 	for _, l := range c.Lines {
+		if l.Prefix == 0 {
+			// a context line written without the optional leading space
+			sb.WriteString(patchRender(l.Text) + "\n")
+			continue
+		}
 		sb.WriteString(string(l.Prefix) + patchRender(l.Text) + "\n")
 	}
 	return sb.String()
@@ -104,7 +109,7 @@ func (c *Change) PatchText() string {
 func (c *Change) Side(which byte) string {
 	var out []string
 	for _, l := range c.Lines {
-		if l.Prefix == ' ' || l.Prefix == which {
+		if l.Prefix == ' ' || l.Prefix == 0 || l.Prefix == which {
 			out = append(out, l.Text)
 		}
 	}
@@ -134,10 +139,10 @@ func (c *Change) CheckPairing() error {
 			// column in the rendered patch text
 			col := len(patchRender(t[:loc[0]]))
 			d := dp{i, col, id}
-			if l.Prefix == ' ' || l.Prefix == '-' {
+			if l.Prefix == ' ' || l.Prefix == 0 || l.Prefix == '-' {
 				minus = append(minus, d)
 			}
-			if l.Prefix == ' ' || l.Prefix == '+' {
+			if l.Prefix == ' ' || l.Prefix == 0 || l.Prefix == '+' {
 				plus = append(plus, d)
 			}
 		}
